@@ -540,3 +540,41 @@ func (g *G) Bool(d int) ex {
 func (g *G) BoolExpr() string {
 	return g.Bool(1 + g.pick(4)).s
 }
+
+// FmtCatalogue declares defined string types tS0..tS15 with every subset of the methods fmt consults
+// (bit 0 String, bit 1 Error, bit 2 Format, bit 3 GoString), and a struct type whose String method has a
+// pointer receiver (so that a nil pointer is a possible operand).  The file using it must import "fmt".
+func FmtCatalogue() string {
+	var b strings.Builder
+	for k := 0; k < 16; k++ {
+		fmt.Fprintf(&b, "type tS%d string\n", k)
+		if k&1 != 0 {
+			fmt.Fprintf(&b, "func (v tS%d) String() string { return \"S:\" + string(v) }\n", k)
+		}
+		if k&2 != 0 {
+			fmt.Fprintf(&b, "func (v tS%d) Error() string { return \"E:\" + string(v) }\n", k)
+		}
+		if k&4 != 0 {
+			fmt.Fprintf(&b, "func (v tS%d) Format(f fmt.State, c rune) { fmt.Fprint(f, \"F:\"+string(v)) }\n", k)
+		}
+		if k&8 != 0 {
+			fmt.Fprintf(&b, "func (v tS%d) GoString() string { return \"G:\" + string(v) }\n", k)
+		}
+	}
+	b.WriteString("type pS struct{ v string }\nfunc (p *pS) String() string { return \"P:\" + p.v }\n")
+	return b.String()
+}
+
+// FmtMethods names the method set of catalogue type tSk.
+func FmtMethods(k int) string {
+	var m []string
+	for i, n := range []string{"String", "Error", "Format", "GoString"} {
+		if k&(1<<i) != 0 {
+			m = append(m, n)
+		}
+	}
+	if len(m) == 0 {
+		return "no-methods"
+	}
+	return strings.Join(m, "+")
+}
